@@ -482,6 +482,24 @@ pub fn run_nested(n: &Nested) -> (String, Vec<String>) {
         }
     }
     match n {
+        Nested::Repeat { times, inner } => {
+            let mut last = (String::new(), Vec::new());
+            let mut vios = Vec::new();
+            let mut first: Option<String> = None;
+            for k in 0..(*times).clamp(1, 1024) {
+                last = run_nested(inner);
+                vios.append(&mut last.1);
+                match &first {
+                    None => first = Some(last.0.clone()),
+                    Some(f) if *f != last.0 && vios.len() < 8 => {
+                        vios.push(format!("repetition #{k} returned {} but the first {}", cut(&last.0), cut(f)));
+                    }
+                    _ => {}
+                }
+            }
+            vios.truncate(8);
+            (last.0, vios)
+        }
         Nested::Decode { bytes, opts } => {
             let o = opts.map(Opts::from_index);
             match decode_msg(bytes, o, &ReaderCfg::Slice, false) {
@@ -539,6 +557,15 @@ pub fn run_nested(n: &Nested) -> (String, Vec<String>) {
 
 /// A nested use for a re-entrant reader.
 pub fn draw_nested(rng: &mut crate::rng::Rng) -> Nested {
+    if rng.chance(1, 10) {
+        let times = *rng.pick(&[2u32, 3, 4, 5, 8, 9, 16, 17, 32, 33, 64, 64, 65, 128, 256]);
+        let inner = draw_nested_once(rng);
+        return Nested::Repeat { times, inner: Box::new(inner) };
+    }
+    draw_nested_once(rng)
+}
+
+fn draw_nested_once(rng: &mut crate::rng::Rng) -> Nested {
     const TWO_OCTET: [u16; 6] = [0, 2, 6, 9, 10, 14];
     match rng.below(10) {
         0..=3 => {
